@@ -83,5 +83,29 @@ CHECKS["C07"] = dict(level="model_checking", design_ref="DESIGN.md 5/C07",
          "the z3-proved interval lemma gives the exact expectation over the offset. MPI: R ranks as threads around a rank-ordered "
          "Gather/Scatter model, every arrival order enumerated.",
     note="Trusted: z3; exact reals for floats; the in-process communicator model; PRNG offset opaque in [0,1). N <= 3 (4 thorough), R <= 3.")
-for k in ("C01","C02","C03","C04","C07","C09","C15","C19","C20"): NA.pop(k, None)
+CHECKS["C05"] = dict(level="model_checking", design_ref="DESIGN.md 5/C05",
+    technique="lemma chain decided by z3 on the traced code: graded series with exact Gaussian moments (field average), Q-domain identities (norm bookkeeping under a havocked QR, Taylor truncation, estimator)",
+    text="L1: the un-normalised state produced by the real propagate_free times its norm has the exact Gaussian average "
+         "(1-dt(H-ene0))phi through s^3 for all Hamiltonians, walkers, rdm1, ene0 (gauge-invariant read-out through minors); L3: with "
+         "the QR output havocked (any Q, any upper-triangular R) norms' = norms*prod diag R_up*prod diag R_dn, overlaps' = "
+         "overlap(Q)*norms', normed_overlaps' = overlap(Q), from an arbitrary pre-state, hence for any number of steps; L4: "
+         "_apply_trotprop_det equals the Taylor polynomial of degree n_exp_terms-1 for n_exp_terms 2..6; L5: _block_scan_free returns "
+         "sum(E_L*overlap)/sum(overlap). L2 (overlap(QR)=overlap(Q) prod diag R) is decided under C13.",
+    note=_WF_NOTE + " QR itself (LAPACK) is a contract stub; series truncated at s^3.")
+CHECKS["C13"] = dict(level="model_checking", design_ref="DESIGN.md 5/C13",
+    technique="symbolic execution of the traced jaxpr with jnp.linalg.qr replaced by its contract (symbolic Q, upper-triangular R, A = QR) + z3 polynomial identities",
+    text="For every trial kind and both walker containers: overlap(A) = overlap(Q_out) x returned norm factor, E_L(A) = E_L(Q_out), "
+         "force_bias(A) = force_bias(Q_out) for ALL Q (not assumed orthonormal), all invertible upper-triangular R and all Hamiltonians, "
+         "through qr_vmap / qr_vmap_uhf and the propagators' orthonormalize_walkers / _orthogonalize_walkers. get_init_walkers is "
+         "not applicable (eager NumPy/LAPACK eigenvector gauge and data-dependent Python branches) and is not claimed.",
+    note=_WF_NOTE + " LAPACK's QR (orthonormality, phases) is not verified: contract stub.")
+CHECKS["C14"] = dict(level="model_checking", design_ref="DESIGN.md 5/C14",
+    technique="symbolic execution of the traced jaxpr (transcendentals uninterpreted with congruence) + z3 term/polynomial equalities",
+    text="_apply_trotprop and one full propagate() step (restricted and unrestricted) give identical outputs for every n_batch dividing the "
+         "walker count and are equivariant under a transposition and a 4-cycle of (walkers, fields, weights, overlaps); the "
+         "population-control shift is invariant; rhf+propagator_restricted on W equals uhf+propagator_unrestricted on [W,W] (walkers, "
+         "weights, overlaps, force bias, energy) for all walkers, fields, weights. n_batch independence of the measurement routines is "
+         "decided under C01-C03.",
+    note=_WF_NOTE + " exp/cos/angle/log uninterpreted (the equalities hold for every interpretation). Driver-level runs outside.")
+for k in ("C01","C02","C03","C04","C05","C07","C09","C13","C14","C15","C19","C20"): NA.pop(k, None)
 ENGINES[0]["serves_properties"] = sorted(CHECKS)
